@@ -59,6 +59,20 @@ def case_recipe(G, espec, rng, nmods, annotate=False, refs=False, rotate=True, s
             spec["refs"] = ["ref-%s-%d" % (name, i) for i in range(nref)]
             if nref and rng.random() < 0.6:
                 spec["refs"][rng.randrange(nref)] = shared[0]
+            if nref >= 2 and rng.random() < 0.5:
+                # two entries for the same publication that differ in one field only (GenBank: same paper for two base
+                # ranges, two "Direct Submission" entries of one lab with different dates)
+                i, j = rng.sample(range(nref), 2)
+                base = spec["refs"][i].split("|")[0]
+                how = rng.random()
+                if how < 0.4:
+                    spec["refs"][i] = "%s||1-%d|" % (base, len(s2) // 2)
+                    spec["refs"][j] = "%s||%d-%d|" % (base, len(s2) // 2, len(s2))
+                elif how < 0.8:
+                    spec["refs"][i] = "%s|Submitted (01-JAN-2020)||" % base
+                    spec["refs"][j] = "%s|Submitted (02-FEB-2021)||" % base
+                else:
+                    spec["refs"][j] = "%s|||second deposit" % base
             if nref == 0 and rng.random() < 0.5:
                 spec.pop("refs")          # no reference list at all (equivalent to an empty one)
         if annotate:
